@@ -9,7 +9,7 @@ tvars == <<vars, tid, l>>
 TL == TraceLines[tid].ev
 TNONE == -1000
 TConfigs == {}
-TInit == /\ tid \in 1..Len(TraceLines) /\ l = 1 /\ cfg = TraceLines[tid].cfg /\ now = 0 /\ on = "off" /\ swOffAt = 0
+TInit == /\ tid \in 1..Len(TraceLines) /\ l = 1 /\ cfg = TraceLines[tid].cfg /\ now = 1 /\ on = "off" /\ swOffAt = 0
          /\ holdOffAt = 0 /\ out = <<>> /\ err = FALSE /\ nops = 0 /\ act = [op |-> "init"]
 Obs(e) == out' = e.cmds /\ err' = e.err
 Step(e) ==
